@@ -252,6 +252,29 @@ def handle (op : String) (args : List String) : Option String :=
         Names.getStr st off)
       let av := (rangeList nidx).map fun i => outS toString (Bases.address e asz b ad i)
       pure s!"ok B={b.strOffsets}:{b.addr}:{b.loclists}:{b.rnglists}|S={join "," sv}|T={join "," tv}|A={join "," av}"
+  | "sk", [e, f, ver, _via, _asz, skattrs, sklow, rng, loc, nidx, raw, _] => do
+      let e ← endian? e; let f ← format? f; let ver ← ver.toNat?; let nidx ← nidx.toNat?; let raw ← raw.toNat?
+      let rng ← parseHex rng; let loc ← parseHex loc
+      let skattrs : List (Nat × Nat) ← if skattrs == "-" then some [] else
+        (skattrs.splitOn ",").mapM fun t => match t.splitOn ":" with
+          | [a, b] => do let a ← a.toNat?; let b ← b.toNat?; pure (a, b)
+          | _ => none
+      let sklow : Option Nat ← if sklow == "-" then some none else sklow.toNat?.map some
+      let skeleton := Bases.newUnit ver f .main skattrs sklow
+      -- standalone `.dwo` after `make_dwo`, or the `Dwarf` `DwarfPackage::find_cu` hands out
+      let parent : Bases.Sections := {
+        fileType := .main, debugAddr := "ADDR".toUTF8.toList, debugRanges := "RANGES".toUTF8.toList,
+        debugRnglists := [], debugLoclists := [] }
+      let own : Bases.Sections := {
+        fileType := .main, debugAddr := [], debugRanges := [], debugRnglists := rng,
+        debugLoclists := loc }
+      let s := Bases.makeDwo own parent
+      let u := Bases.copyRelocated (Bases.newUnit ver f s.fileType [] none) skeleton
+      let rv := (rangeList nidx).map fun i => outS toString (Bases.rangesOffset e u s i)
+      let lv := (rangeList nidx).map fun i => outS toString (Bases.locationsOffset e u s i)
+      let b := u.bases
+      pure (s!"ok B={b.strOffsets}:{b.addr}:{b.loclists}:{b.rnglists}:{u.lowPc}|R={join "," rv}|L={join "," lv}" ++
+        s!"|W={Bases.rangesOffsetFromRaw u s raw}|D={toHex s.debugAddr},{toHex s.debugRanges}")
   | "djb-ascii", [h] => do
       let bs ← parseHex h
       -- `case_folding_djb_hash` restricted to ASCII input (`to_ascii_lowercase`, then `hash*33 + byte`)
